@@ -50,10 +50,11 @@ def verify(wt, name):
     rc2, out2 = sh(f"{tgt} cargo test --offline -j 12 --test seed_demo 2>&1", cwd=wt)
     ok2, failed2 = summarize_tests(out2)
     # (3) demonstration without the change
-    sh("git stash push -- src", cwd=wt)
+    # (no git stash: the stash is shared by all worktrees of /repo)
+    sh("git checkout -- src", cwd=wt)
     rc3, out3 = sh(f"{tgt} cargo test --offline -j 12 --test seed_demo 2>&1", cwd=wt)
     ok3, failed3 = summarize_tests(out3)
-    sh("git stash pop", cwd=wt)
+    sh(f"git apply {os.path.join(dest, 'patch.diff')}", cwd=wt)
     verdict = dict(
         suite_with_change=dict(rc=rc1, passed=ok1, failed=failed1, wall_s=round(time.time() - t0)),
         demo_with_change=dict(rc=rc2, passed=ok2, failed=failed2),
@@ -62,7 +63,7 @@ def verify(wt, name):
     good = rc1 == 0 and failed1 == 0 and ok1 >= 150 and rc2 != 0 and failed2 >= 1 and rc3 == 0 and failed3 == 0 and ok3 >= 1
     meta["confirmed_by_me"] = verdict
     meta["confirmed"] = good
-    meta["what_i_ran"] = "in the scratch worktree: cargo test --offline --no-fail-fast with the change (demo moved aside); cargo test --test seed_demo with the change (must fail); git stash; same (must pass); git stash pop"
+    meta["what_i_ran"] = "in the scratch worktree: cargo test --offline --no-fail-fast with the change (demo moved aside); cargo test --test seed_demo with the change (must fail); git checkout -- src; same (must pass); git apply patch.diff"
     shutil.copy(demo, os.path.join(dest, "demo.rs"))
     json.dump(meta, open(os.path.join(dest, "meta.json"), "w"), indent=1)
     print(name, "CONFIRMED" if good else "NOT CONFIRMED", json.dumps(verdict))
